@@ -36,7 +36,7 @@ func init() {
 	register("c18", "C18 extract: run the real extractor on std and random packages, compare with go/types and compile the output", runC18)
 }
 
-var c18BaselineRestricted = map[string]bool{"osExit": true, "osFindProcess": true, "logFatal": true, "logFatalf": true, "logFatalln": true, "logLogger": true, "logNew": true}
+var c18BaselineRestricted = map[string]bool{"osExit": true, "osFindProcess": true, "logDefault": true, "logFatal": true, "logFatalf": true, "logFatalln": true, "logLogger": true, "logNew": true}
 
 var c18Always = []string{"math", "os", "log", "io", "fmt", "sort", "net/http", "strings", "time", "go/token", "context", "database/sql/driver", "log/syslog", "io/fs", "encoding/json", "reflect", "math/big", "go/constant"}
 
